@@ -205,7 +205,7 @@ def get_note_spelling(note, chord, last_pitch=None):
     mode = chord.tonality.mode
     pitch = note_to_pitch_result(note, chord, last_pitch=last_pitch)
     tonality_scale_pitches = [p % 12 for p in chord.tonality.scale_pitches]
-    if (pitch % 12) in tonality_scale_pitches:
+    if (pitch % 12) in tonality_scale_pitches and mode in SCALES:
         idx = tonality_scale_pitches.index(pitch % 12)
         note_spelling = SCALES[mode][tonality_degree][idx]
         # Correct octave
